@@ -46,17 +46,39 @@ def extras(tier):
     return gen
 
 
+FWD_OPS = ("lap", "div", "veclap", "veclapdef", "adv")
+
+
+def prepare(structs, seed):
+    """operator configurations are complete as emitted; the forward-mode structures (MC_FwdRev, operators only) are instantiated"""
+    from .. import lossrec
+
+    out = []
+    for s in structs:
+        if s.get("kind") == "operator":
+            out.append(s)
+        elif s.get("op") in FWD_OPS:
+            out.append(lossrec.expand_fr(s, seed))
+    return out
+
+
 def sig(r):
+    if "struct" in r:
+        return dict({k: (v if isinstance(v, (int, str, bool)) else str(v)) for k, v in r["struct"].items()}, src="fwd")
     return dict(op=r["op"], dim=r["dim"], withT=r["withT"], src=r["src"])
 
 
 def run(tier, seed):
     q = tier == "quick"
     return _func.run(
-        "C01", tier, seed, emitters=[("MC_Operators", MC % ((3, 3) if q else (4, 5)), "MC_Operators")], extras=extras(tier), sig=sig,
+        "C01", tier, seed, emitters=[("MC_Operators", MC % ((3, 3) if q else (4, 5)), "MC_Operators"),
+                                      ("MC_FwdRev", "CONSTANT Sel = \"operators\"\nSPECIFICATION Spec\nINVARIANT Emit\n", "MC_FwdRev_operators")],
+        extras=extras(tier), sig=sig, prepare=prepare, thorough_reps=1,
         rule="TLC enumerates dim 1..4 x time? x {laplacian, divergence, vector laplacian, advection (2-D)} x every monomial of total "
              "degree <= 3 in (t, x) placed in each output component over a time-dependent background field x unrelated parameter "
              "value, evaluated at lattice points; + seeded random integer polynomial fields; the oracle differentiates w.r.t. the "
-             "spatial variables only; distinct = distinct configuration",
+             "spatial variables only; + the forward-mode (separable network) implementations of the same operators on polynomial SPINNs, "
+             "dimensions 1..3, batches per axis 1..3 including batches smaller than the dimension (structures of MC_FwdRev, operators only); "
+             "distinct = distinct configuration",
         assumptions=["polynomial integer fields only (exact under x64); transcendental fields and JAX's AD rules for them are trusted",
                      "the reverse-mode operators are called exactly as the built-in equations call them (PINN wrapper around a polynomial module)"])
